@@ -1,7 +1,7 @@
 (* C13 model: implements/syntax/tranp/tokenizer.py (Lexer.parse_impl with its six domain parsers,
    post_filter, Tokenizer._rebuild) and token.py (SourceMap.make), over a token definition regenerated
    from /repo (gen/GenTokenDef.v). Executable definitions only. *)
-From Tranp Require Export Model.LexerTypes.
+From Tranp Require Export Model.LexerTypes Base.LineCol.
 From TranpGen Require Export GenTokenDef.
 From Coq Require Import ZArith.
 Local Open Scope nat_scope.
@@ -247,16 +247,6 @@ Definition tokenize (src : str) : lexres :=
   match lexer_parse src with LOk ts => LOk (rebuild ts) | other => other end.
 End WithDef.
 
-(* ---- SourceMap.make(source, begin, end) ---- *)
-Fixpoint count_nl (t : str) (n : nat) : nat :=      (* source.count('\n', 0, n) *)
-  match n, t with
-  | S k, c :: r => (if Ascii.eqb c (ascii_of_nat 10) then 1 else 0) + count_nl r k
-  | _, _ => 0
-  end.
-Fixpoint line_start (t : str) (n : nat) (pos start : nat) : nat :=   (* 1 + rfind('\n', 0, n), or 0 *)
-  match n, t with
-  | S k, c :: r => line_start r k (S pos) (if Ascii.eqb c (ascii_of_nat 10) then S pos else start)
-  | _, _ => start
-  end.
-Definition linecol (src : str) (p : nat) : nat * nat := (count_nl src p, p - line_start src p 0 0).
+(* ---- SourceMap.make(source, begin, end): (line, column) of both offsets (Base/LineCol.v) ---- *)
+Definition linecol (src : str) (p : nat) : nat * nat := lc src p.
 Definition source_map (src : str) (b e : nat) : (nat * nat) * (nat * nat) := (linecol src b, linecol src e).
